@@ -361,7 +361,19 @@ def rule_acyc(c, prog):
         # look for a loop that reads .parent
         cfg = D.CFG(fn)
         has_walk = False
+        # `ancestor = self.instances.get(&ancestor).map_or(Ref::none(), |i| i.parent)`: the read happens in a closure
+        # handed to a call of the loop — the call counts as the read (matched to the MIR call by span)
+        carriers = set()
+        if fn.body is not None:
+            for x in core.walk_fn(fn, into_closures=False):
+                if x.get("k") in ("Call", "MethodCall"):
+                    for a in x.get("args") or []:
+                        a0 = core.strip(a)
+                        if a0.get("k") == "Closure" and any((y.get("k") == "Field" and y.get("f") == "parent" and "Instance" in (core.strip(y["e"]).get("ty") or "")) or (y.get("k") == "MethodCall" and (core.callee(y) or "").endswith("Instance::parent")) for y in core.walk(a0["body"])):
+                            carriers.add(x.get("sp"))
         for i, bb in enumerate(cfg.blocks):
+            if bb["term"]["k"] == "call" and bb["term"].get("sp") in carriers and any(i in cfg.reachable_from(s_) for s_ in cfg.succ[i]):
+                has_walk = True
             reads_parent = any(st["k"] == "assign" and any(U.F_PARENT in D.place_fields(op) for op in st.get("ops", []) if op.get("k") == "place") and D.last_field(st["lhs"]) != U.F_PARENT for st in bb["stmts"])
             calls_parent = bb["term"]["k"] == "call" and (bb["term"].get("fn") or "").endswith("Instance::parent")
             if (reads_parent or calls_parent) and i in cfg.reachable_from(i) - ({i} if i not in cfg.succ[i] else set()) | ({i} if any(i in cfg.reachable_from(s) for s in cfg.succ[i]) else set()):
@@ -496,9 +508,42 @@ def rule_guard(c, prog, R="C09.guard", constructors=True):
                         nm = k.get("name") or ""
                         if k.get("lid") in plids and "parent" in nm:
                             checks.append((y, nm))
+            def tested_before(first_mut, nm):
+                """an earlier look-up of the same parameter in the instance map, in front of every change: `if
+                !self.instances.contains_key(&dest) { panic!(..) }` (the later get_mut().unwrap_or_else() that fetches the
+                `&mut` is then no longer the check)"""
+                for y in core.walk_fn(b):
+                    if y.get("k") == "MethodCall" and y["m"] in ("contains_key", "get", "get_mut") and INST_MAP.search(_peel(core.strip(y["recv"]).get("ty") or y["recv"].get("aty"))) and _spk(y) < _spk(first_mut):
+                        k = core.strip(y["args"][0])
+                        while k.get("k") in ("AddrOf", "Unary"):
+                            k = core.strip(k["e"])
+                        if k.get("lid") in plids and (k.get("name") or "") == nm:
+                            return True
+                return False
             for chk, nm in checks:
                 inst = f"precondition:{name}:{nm}"
                 early = [m_ for m_ in muts if _spk(m_) < _spk(chk)]
+                if early and tested_before(min(early, key=_spk), nm):
+                    early = []
+                if early and b is not f:
+                    # the check sits in a local helper (`fn insert(dom, builder, parent, ..)`): it is early enough when
+                    # the operation itself looks the value up before it calls the helper for the first time — at every
+                    # call that passes one of the operation's own parameters (other arguments are referents the
+                    # operation has just stored)
+                    idx = [i_ for i_, prm in enumerate(b.params) if any(q.get("k") == "Binding" and q.get("name") == nm for q in core.walk(prm))]
+                    calls = [y for y in core.walk_fn(f) if y.get("k") == "Call" and (core.callee(y) or "") == b.path]
+                    fpl = {q["lid"]: q.get("name") for prm in f.params for q in core.walk(prm) if q.get("k") == "Binding"}
+                    if idx and calls:
+                        first = min(calls, key=_spk)
+                        okc = True
+                        for cl in calls:
+                            a = core.strip(cl["args"][idx[0]])
+                            if a.get("k") == "Path" and a.get("lid") in fpl:
+                                pn = fpl[a["lid"]]
+                                if not any(y.get("k") == "MethodCall" and y["m"] in ("contains_key", "get", "get_mut") and INST_MAP.search(_peel(core.strip(y["recv"]).get("ty") or y["recv"].get("aty"))) and _spk(y) < _spk(first) and (lambda k: k.get("lid") == a["lid"])(core.strip(core.strip(y["args"][0]).get("e", core.strip(y["args"][0])))) for y in core.walk_fn(f, into_closures=False)):
+                                    okc = False
+                        if okc:
+                            early = []
                 if early:
                     c.violation(R, f"late-check|{name}|{nm}", f"{name} checks that `{nm}` exists only after it has already changed the DOM ({len(early)} earlier mutation(s), first at {core.loc(early[0])}): when the new parent is one of the instances being stored or moved the documented panic never fires and the instance ends up its own ancestor; when it is missing altogether the panic leaves the DOM half-changed", core.loc(chk), instance=inst)
                 else:
